@@ -36,7 +36,7 @@ def _intarr(rng, n, shape=None, neg=True):
 def gen_index(rng, shape):
     """Returns (index, class_name)."""
     r = len(shape)
-    kinds = ["int", "slice", "ellipsis", "newaxis", "intarr", "intarr_rep", "boolmask", "list", "mixed_adv_slice", "two_adv", "adv_bcast", "tuple_ints", "bool_lead", "empty_list", "neg_step", "scalar_arr", "adv_newaxis", "bool_and_slice", "ellipsis_mid"]
+    kinds = ["int", "slice", "ellipsis", "newaxis", "intarr", "intarr_rep", "boolmask", "list", "mixed_adv_slice", "two_adv", "adv_bcast", "tuple_ints", "bool_lead", "empty_list", "neg_step", "scalar_arr", "adv_newaxis", "bool_and_slice", "ellipsis_mid", "bool_list", "bool_list_in_tuple"]
     if r == 0:
         k = rng.choice(["ellipsis", "newaxis", "empty_tuple", "bool_scalar"])
         if k == "ellipsis":
@@ -75,6 +75,14 @@ def gen_index(rng, shape):
         return m, k
     if k == "list":
         return [int(t) for t in _intarr(rng, n0)], k
+    if k == "bool_list":
+        m = [bool(t) for t in (rng.uniform(size=(n0,)) > 0.4)]
+        if not any(m):
+            m[0] = True
+        return m, k
+    if k == "bool_list_in_tuple":
+        m = [bool(t) for t in (rng.uniform(size=(n0,)) > 0.4)]
+        return (m,) + ((slice(None),) if r >= 2 else ()), k
     if k == "empty_list":
         return onp.array([], dtype=int), k
     if k == "neg_step":
